@@ -1,4 +1,6 @@
 """C11 - the transaction pool's contents and bookkeeping are mutually consistent (structural necessary conditions)."""
+import re
+
 import kinds as K
 
 CRATES = ["ckb_tx_pool"]
@@ -139,7 +141,7 @@ def run(F, S, R, tier):
                 R.ok("fieldcov/weights/" + fn, "%s applies %s to %s_{count,size,cycles,fee} with 1 / entry.size / entry.cycles / entry.fee" % (fn, op, side), [b.where()])
         # direction: Remove -> sub, Add -> add, ancestors get descendant weight and vice versa
         for fn, calls in (("update_ancestors_index_key", ("sub_descendant_weight", "add_descendant_weight")), ("update_descendants_index_key", ("sub_ancestor_weight", "add_ancestor_weight"))):
-            cands = [b for b in F.bodies_of_crate("ckb_tx_pool") if b.kind == "Closure" and b.calls_to(r"TxEntry::%s$" % calls[0])]
+            cands = [b for b in F.bodies_of_crate("ckb_tx_pool") if b.kind == "Closure" and b.calls_to(r"TxEntry::%s$" % calls[0]) and (b.parent or "").endswith("PoolMap::" + fn)]
             if not cands:
                 R.bad("sibling/index-key/%s/anchor-lost" % fn, "closure calling %s not found" % calls[0], [])
                 continue
@@ -195,7 +197,9 @@ def run(F, S, R, tier):
             R.bad("mustcall/remove-all", "remove_entry_and_descendants no longer calls remove_entry for the collected ids", [red.where()])
         # the ancestors whose aggregates shrink are the ancestors of the entry being subtracted (not of some other entry)
         for wfn, rel in (("sub_descendant_weight", "calc_ancestors"), ("add_descendant_weight", "calc_ancestors"), ("sub_ancestor_weight", "calc_descendants"), ("add_ancestor_weight", "calc_descendants")):
-            for cb in [b for b in F.bodies_of_crate("ckb_tx_pool") if b.kind == "Closure" and b.calls_to(r"TxEntry::%s$" % wfn) and "pool_map" in b.path]:
+            # scope: the two functions that take one entry and walk *its* relatives; pairwise fix-ups (unrelate_entries) walk
+            # explicit (ancestor, descendant) pairs and are decided by pair-fixup rules below
+            for cb in [b for b in F.bodies_of_crate("ckb_tx_pool") if b.kind == "Closure" and b.calls_to(r"TxEntry::%s$" % wfn) and re.search(r"PoolMap::update_(ancestors|descendants)_index_key$", b.parent or "")]:
                 P = F.body(cb.parent, "ckb_tx_pool")
                 if P is None:
                     continue
@@ -207,6 +211,75 @@ def run(F, S, R, tier):
                 else:
                     R.bad(key, "%s applies %s over a set that is not %s(entry.proposal_short_id()) of the same entry (caller-supplied or foreign relatives give stale aggregates in joined DAGs)" % (K.short(P.path), wfn, rel), [P.where()])
     R.guard("order/links-before-aggregates", links_before_aggregates)
+
+    # ------------------------------------------------------------ 3b. pairwise fix-ups (defects F8, F9, F10)
+    def reach_bodies(root, depth=2):
+        out, frontier, seen = [], [root], {root.path}
+        for _ in range(depth + 1):
+            nxt = []
+            for b in frontier:
+                for x in K.with_nested(b):
+                    out.append(x)
+                    for c in x.calls:
+                        for cb in S.callee_bodies(c):
+                            if cb.path not in seen and "ckb_tx_pool::component::pool_map" in cb.path:
+                                seen.add(cb.path)
+                                nxt.append(cb)
+            frontier = nxt
+        return out
+
+    def pair_fixups():
+        # F9: an entry removed alone (remove_entry) may sit between pooled ancestors and pooled descendants; the pairs that were related
+        # only through it must be subtracted from each other. Necessary shape: one traversal that applies BOTH sub_descendant_weight
+        # (to an ancestor) and sub_ancestor_weight (to a descendant); the two single-entry walkers only ever apply one of them.
+        rm = F.need(PM + "remove_entry")
+        both = [b for b in {K.short(x.root or x.path): x for x in reach_bodies(rm)}.values()]
+        roots = {}
+        for x in reach_bodies(rm):
+            r = x.root or x.path
+            roots.setdefault(r, set())
+            for c in x.calls:
+                m = re.search(r"TxEntry::(sub_descendant_weight|sub_ancestor_weight)$", c.callee)
+                if m:
+                    roots[r].add(m.group(1))
+        R.sites += len(roots)
+        hit = [r for r, v in roots.items() if len(v) == 2]
+        if hit:
+            R.ok("paired/remove-alone/pair-fixup", "remove_entry reaches a traversal (%s) that subtracts ancestors and descendants from each other" % K.short(hit[0]), [rm.where()])
+        else:
+            R.bad("paired/remove-alone/pair-fixup", "remove_entry removes an entry that can have both pooled ancestors and pooled descendants, but nothing un-relates those pairs: "
+                  "the descendants keep counting ancestors they are no longer linked to (stale ancestors_*/descendants_*, score and evict keys)", [rm.where()])
+        # F10: an entry added while its children are already pooled (re-add after a reorg): its descendants become descendants of its
+        # ancestors. Same necessary shape on the add side.
+        red = F.need(PM + "record_entry_descendants")
+        roots = {}
+        for x in reach_bodies(red):
+            r = x.root or x.path
+            roots.setdefault(r, set())
+            for c in x.calls:
+                m = re.search(r"TxEntry::(add_descendant_weight|add_ancestor_weight)$", c.callee)
+                if m:
+                    roots[r].add(m.group(1))
+        R.sites += len(roots)
+        hit = [r for r, v in roots.items() if len(v) == 2]
+        if hit:
+            R.ok("paired/late-parent/pair-fixup", "record_entry_descendants reaches a traversal (%s) that adds the late parent's ancestors and descendants to each other" % K.short(hit[0]), [red.where()])
+        else:
+            R.bad("paired/late-parent/pair-fixup", "record_entry_descendants links already-pooled children to a newly added parent and adds the parent's weight to them, but the parent's own "
+                  "descendants_* and the (ancestor of parent, descendant of parent) pairs are never updated, and the ancestor limit of the children is not re-checked", [red.where()])
+        # F8: in the ancestor-limit eviction of check_and_record_ancestors every entry removed by remove_entry_and_descendants must leave `parents`
+        ca = F.need(PM + "check_and_record_ancestors")
+        rmd = ca.calls_to(PM + "remove_entry_and_descendants$")
+        prs = [c for c in ca.calls_to(r"HashSet::<.*>::remove$")]
+        R.sites += len(rmd) + len(prs)
+        if not rmd:
+            R.ok("prov/evict-parents", "check_and_record_ancestors evicts nothing", [ca.where()])
+        elif prs and all(K.origin_sites(ca, c.args[1]) & {x.bb for x in rmd} for c in prs):
+            R.ok("prov/evict-parents", "every entry removed by the ancestor-limit eviction (the evicted referrer and its descendants) is dropped from the newcomer's parents", [c.where() for c in prs])
+        else:
+            R.bad("prov/evict-parents", "the ancestor-limit eviction removes an entry together with its descendants but only forgets the evicted id itself: a descendant that is "
+                  "also a parent of the newcomer stays in `parents` (panic `inconsistent pool` in _record_ancestors, or a pooled transaction spending an evicted output)", [c.where() for c in (prs or rmd)])
+    R.guard("paired/pair-fixups", pair_fixups)
 
     # ------------------------------------------------------------ 4. conflicts and RBF
     def conflict():
